@@ -215,6 +215,12 @@ Lemma access_crop_first_lemma :
   List.length threshold_dispatch = 7%nat.
 Proof. repeat split; reflexivity. Qed.
 
+(* premise of S4 (repeated calls agree): every random stream of threshold.py / smooth.py / otsu.py is
+   re-seeded inside the call, from a literal or from the data *)
+Lemma random_streams_seeded_lemma :
+  forallb (fun u => rand_ok (snd u)) threshold_random_uses = true.
+Proof. reflexivity. Qed.
+
 (* ------------------------------------------------------------------ checker soundness *)
 
 Lemma in_rangeb_sound lo hi x : in_rangeb lo hi x = true -> in_range lo hi x.
